@@ -65,7 +65,7 @@ structure RxFacts (proj : Project) : Prop where
   noClsImp : ∀ {S b st}, siteBody proj S = some b → st ∈ b → S.2 ≠ [] → isImportStmt st = false
   one : ((reexportReqs proj).map fun r => (r.1, r.2.1)).Nodup
   reqOk : ∀ r ∈ reexportReqs proj, r.1 ≠ r.2.2.1 ∧ isPkg proj r.1 = false ∧ definesTop proj r.1 r.2.1 = true ∧
-    ((lastAll (bodyOf proj r.1)).getD []).contains r.2.1 = false
+    ((lastAll (bodyOf proj r.1)).getD []).contains r.2.1 = false ∧ isSupersededName r.2.2.2 = false
 
 theorem RxFacts.of {proj : Project} (h : reexportShape proj = true) : RxFacts proj := by
   simp only [reexportShape, Bool.and_eq_true] at h
@@ -89,7 +89,7 @@ theorem RxFacts.of {proj : Project} (h : reexportShape proj = true) : RxFacts pr
   · intro r hr
     have := List.all_eq_true.1 h2 r hr
     simp only [Bool.and_eq_true, bne_iff_ne, ne_eq, Bool.not_eq_true'] at this
-    exact ⟨this.1.1.1, this.1.1.2, this.1.2, this.2⟩
+    exact ⟨this.1.1.1.1, this.1.1.1.2, this.1.1.2, this.1.2, this.2⟩
 
 theorem WFr.facts {proj : Project} {rank : List Nat} (h : WFr proj rank = true) : WFacts proj rank ∧ RxFacts proj := by
   simp only [WFr, Bool.and_eq_true] at h
